@@ -21,16 +21,18 @@ def _solve(job):
         # (fixed, hence reproducible) random seeds / quantifier settings.  Any `unsat` is a proof; `sat` stops at once.
         # E-matching first (every library axiom carries patterns; model-based instantiation over array sorts is slow and
         # only needed for the few pattern-less clauses), then MBQI, then another seed
-        attempts = [({"smt.mbqi": False, "smt.arith.solver": 2}, 1), ({"smt.mbqi": False}, 1), ({}, 1),
-                    ({"smt.random_seed": 7, "smt.mbqi": False, "smt.arith.solver": 2}, 2)]
+        # Attempt schedule.  E-matching only (every library axiom carries patterns); the legacy arithmetic solver (2) is the
+        # fast one for array VCs, the default (nla) one for div/mod VCs; short tries first, then long ones, MBQI last.
+        # Any `unsat` is a proof; `sat` stops at once.  (options, rlimit multiplier, wall seconds)
+        A, Bq = {"smt.mbqi": False, "smt.arith.solver": 2}, {"smt.mbqi": False}
         if "(div " in text or "(mod " in text:
-            # integer division / modulo by symbolic terms: the default (nla) arithmetic solver is the one that copes
-            attempts = [attempts[1], attempts[0]] + attempts[2:]
+            A, Bq = Bq, A
+        attempts = [(A, 1, 12), (Bq, 1, 12), (A, 2, WALL_S), (Bq, 2, WALL_S), ({}, 1, WALL_S)]
         res, model, reason = "unknown", None, ""
-        for n_att, (opts, mult) in enumerate(attempts):
+        for n_att, (opts, mult, wall) in enumerate(attempts):
             s = z3.Solver()
             s.set("rlimit", int(rlimit * mult))
-            s.set("timeout", WALL_S * 1000)
+            s.set("timeout", int(wall * 1000))
             for k_, v_ in opts.items():
                 s.set(k_, v_)
             s.from_string(text)
